@@ -477,7 +477,8 @@ Fixpoint safe_path (fuel : nat) (r : registry) (path : list N) (id : N) : bool :
       match lookup r id with
       | None => false
       | Some t =>
-          negb (existsb (N.eqb id) path) &&
+          if existsb (N.eqb id) path then false   (* a cycle; [if], not [&&]: evaluation must stop here *)
+          else
           let rec := safe_path fuel' r (id :: path) in
           match t_def t with
           | TDComposite fs => fields_uniform fs && forallb rec (map f_ty fs)
